@@ -231,12 +231,12 @@ func (t *Term) render() string {
 	case "sref":
 		lo, _ := t.Args[0].Int64()
 		hi, _ := t.Args[1].Int64()
-		parts := []string{}
-		for i := lo; i < hi && i < lo+64; i++ {
-			parts = append(parts, project(t.Cell.Val, fmt.Sprintf("#%d", i)).String())
+		if hi-lo > 16 {
+			return fmt.Sprintf("&%s[%d:%d]", t.Cell.Name, lo, hi)
 		}
-		if hi > lo+64 {
-			parts = append(parts, "...")
+		parts := []string{}
+		for i := lo; i < hi; i++ {
+			parts = append(parts, project(t.Cell.Val, fmt.Sprintf("#%d", i)).String())
 		}
 		return "[" + strings.Join(parts, ",") + "]"
 	case "ptr":
